@@ -193,9 +193,9 @@ func (r *run) importOnce(fault *ReqID, mode string) ImportObs {
 type COp struct {
 	Kind    string `json:"k"`
 	Author  string `json:"a"`
-	Time    string `json:"t"`            // index of the tracker event carrying that stamp ("e3"), else the unix time
-	Remote  string `json:"r,omitempty"`  // gitlab-id metadata
-	Payload string `json:"p,omitempty"`  // what the operation carries, minus what the tracker cannot reproduce (see canon)
+	Time    string `json:"t"`           // index of the tracker event carrying that stamp ("e3"), else the unix time
+	Remote  string `json:"r,omitempty"` // gitlab-id metadata
+	Payload string `json:"p,omitempty"` // what the operation carries, minus what the tracker cannot reproduce (see canon)
 	id      string
 }
 
@@ -464,7 +464,7 @@ func diffBugs(got, want []CBug, ordered bool) map[string]string {
 					add("label-event-reimported", fmt.Sprintf("issue %s: label event %s stored %d times here, %d times in the reference", g.Key, o.Remote, mg[s], mw[s]))
 					continue
 				}
-				add("op-missing:"+o.Kind,fmt.Sprintf("issue %s: missing operation %s; have %v, reference %v", g.Key, s, gs, ws))
+				add("op-missing:"+o.Kind, fmt.Sprintf("issue %s: missing operation %s; have %v, reference %v", g.Key, s, gs, ws))
 			}
 		}
 		if same && ordered {
